@@ -196,6 +196,10 @@ impl TypeCtx {
     fn enter_pure(self) -> Self {
         Self { inside_pure: true, ..self }
     }
+
+    fn enter_function(self) -> Self {
+        Self { inside_loop: false, ..self }
+    }
 }
 
 impl TypeChecker {
@@ -960,6 +964,9 @@ impl TypeChecker {
             E::Function { name: _, params, ret, body, pure, span } => {
                 let (f_ty, ret_ty) = self.type_from_function(ctx, params, ret, *pure)?;
 
+                // A loop around the function is not a loop of the function: `break` and
+                // `continue` cannot leave the body.
+                let ctx = ctx.enter_function();
                 let ctx = if *pure { ctx.enter_pure() } else { ctx };
                 let (actual_ret, implicit_ret) = self.expression_block(*span, body, ctx)?;
                 let actual_ret = if ret.is_void() {
